@@ -8,7 +8,8 @@ import (
 // bounding: every execution whose total deviation cost is <= Bound is run exactly once per
 // bound iteration, to completion, and handed to Check.
 type Explorer struct {
-	Bound      int  // deviation bound to reach (iterated 0,1,..,Bound)
+	Bound      int  // deviation bound to reach (iterated Start,..,Bound)
+	Start      int  // first bound iterated (0 = iterate from 0; Start == Bound runs the final iteration only)
 	Strict     bool // strict virtual time
 	Shard      int  // this process explores the level-1 subtrees with index % NShards == Shard
 	NShards    int
@@ -34,7 +35,7 @@ func (e *Explorer) Run() {
 		e.NShards = 1
 	}
 	e.BoundCompleted = -1
-	for b := 0; b <= e.Bound && !e.stop; b++ {
+	for b := e.Start; b <= e.Bound && !e.stop; b++ {
 		e.ExecsAtBound = make([]int, b+1)
 		e.iter(b)
 		if e.stop {
